@@ -56,7 +56,7 @@ def run(ctx):
     from gen.probes import probes
     for name, data in probes('C13'):
         ctx.count('probe'); one(ctx, data, None)
-    n = 120 if ctx.quick else 6000
+    n = 120 if ctx.quick else 3500
     for pkg, meta, rng in stream(ctx, PROF, n):
         data = pkg.to_bytes()
         one(ctx, data, meta)
